@@ -72,13 +72,14 @@ pub fn random_header(r: &mut Rng, mtype: u8, seq: u16, body_len: usize) -> MsgHe
         // keep a raw message stream from looking like a bzip2 record to Record::compressed()
         ctm[5] = 0;
     }
-    // The size and segment fields describe the message for the RPG; a decoder of Archive II data
-    // frames fixed types by 2432 bytes and type 31 by its blocks, so any value is legal here:
-    // mostly the honest value, sometimes the variable-length marker 65535 or noise.
-    let (size_halfwords, segments, segment_number) = match r.below(8) {
-        0 => (65535u16, r.below(65536) as u16, r.below(65536) as u16),
-        1 => ([0u16, 1, 1208, 1216, 32767, 32768, 65534][r.below(7) as usize], 1 + r.below(5) as u16, 1 + r.below(5) as u16),
-        _ => ((((16 + body_len) / 2).min(65534)) as u16, 1, 1),
+    // Well-formed headers are truthful: the size is the message length in halfwords including the
+    // 16-byte header; a message too long for that field carries the variable-length marker 65535
+    // and its size in bytes in the segment-count (high half) and segment-number (low half) fields.
+    let bytes = 16 + body_len;
+    let (size_halfwords, segments, segment_number) = if bytes / 2 > 65534 {
+        (65535u16, (bytes >> 16) as u16, (bytes & 0xFFFF) as u16)
+    } else {
+        ((bytes / 2) as u16, 1, 1)
     };
     MsgHeader {
         ctm,
